@@ -77,21 +77,8 @@ pub fn record_c09(out: &str, n: usize) {
         let back = v::parse_word(&text, &al);
         let fixed = match asca::run(&[], &[text.clone()], &[], &[]) { Ok(o) => o.len() == 1 && o[0] == text, Err(_) => false };
         // signature of C09-KF1, evaluated on the vector: some segment's rendering begins with a longer cardinal grapheme than the one it was built from
-        let collides = word.syllables.iter().flat_map(|s| s.segments.iter()).any(|s| {
-            // the longest cardinal grapheme the parser will take from this segment's rendering is itself "shorter cardinal + diacritic", and the segment is not that cardinal
-            let r = s.get_as_grapheme().unwrap_or_default();
-            let lp = t.cards.iter().filter(|(g, _)| r.starts_with(g.as_str())).max_by_key(|(g, _)| g.len());
-            match lp { Some((g, c)) => c != s && g.chars().last().map(|ch| t.dias.iter().any(|d| d.diacrit == ch)).unwrap_or(false) && r.len() >= g.len(), None => false }
-        });
-        // signature of C09-KF2: two adjacent segments of a syllable whose renderings join into a longer cardinal grapheme than the first one's own
-        let joins = word.syllables.iter().any(|sy| (1..sy.segments.len()).any(|i| {
-            let (x, y) = (sy.segments[i - 1], sy.segments[i]);
-            if x == y { return false; }
-            let (rx, ry) = (x.get_as_grapheme().unwrap_or_default(), y.get_as_grapheme().unwrap_or_default());
-            let joined = format!("{rx}{ry}");
-            let lp = |r: &str| t.cards.iter().filter(|(g, _)| r.starts_with(g.as_str())).map(|(g, _)| g.len()).max().unwrap_or(0);
-            lp(&joined) > rx.len().min(lp(&rx).max(1)) && lp(&joined) > lp(&rx)
-        }));
+        let collides = kf1_collides(&word, &t);
+        let joins = kf2_joins(&word, &t);
         sum.vectors += 1; if ok { sum.nontrivial += 1; }
         let b = match &back { Ok(bw) => w_compact(bw, false), Err(e) => json!({"err": err_key(e)}) };
         w.put(json!({"ok": ok, "w": w_compact(&word, false), "b": b, "fix": fixed}),
@@ -158,4 +145,26 @@ pub fn record_c01(out: &str, proc_id: usize, nitems: usize) {
     }
     sum.agree = sum.vectors; sum.nontrivial = sum.vectors;
     sum.print();
+}
+
+
+/// signature of C09-KF1: the longest cardinal grapheme the parser will take from some segment's rendering is itself "shorter cardinal + diacritic", and the segment is not that cardinal
+pub fn kf1_collides(word: &v::Word, t: &tables::Tables) -> bool {
+    word.syllables.iter().flat_map(|s| s.segments.iter()).any(|s| {
+        let r = s.get_as_grapheme().unwrap_or_default();
+        let lp = t.cards.iter().filter(|(g, _)| r.starts_with(g.as_str())).max_by_key(|(g, _)| g.len());
+        match lp { Some((g, c)) => c != s && g.chars().last().map(|ch| t.dias.iter().any(|d| d.diacrit == ch)).unwrap_or(false) && r.len() >= g.len(), None => false }
+    })
+}
+
+/// signature of C09-KF2: two adjacent segments of a syllable whose renderings join into a longer cardinal grapheme than the first one's own
+pub fn kf2_joins(word: &v::Word, t: &tables::Tables) -> bool {
+    word.syllables.iter().any(|sy| (1..sy.segments.len()).any(|i| {
+        let (x, y) = (sy.segments[i - 1], sy.segments[i]);
+        if x == y { return false; }
+        let (rx, ry) = (x.get_as_grapheme().unwrap_or_default(), y.get_as_grapheme().unwrap_or_default());
+        let joined = format!("{rx}{ry}");
+        let lp = |r: &str| t.cards.iter().filter(|(g, _)| r.starts_with(g.as_str())).map(|(g, _)| g.len()).max().unwrap_or(0);
+        lp(&joined) > lp(&rx)
+    }))
 }
